@@ -39,7 +39,7 @@ import (
 
 const (
 	hangAfter  = 40 * time.Second // a decoder call on < 100 KB that has not returned by then is not coming back
-	hangHeapMB = 400              // ... nor is one whose heap grew by this much
+	hangHeapMB = 200              // ... nor is one whose heap grew by this much
 	exitLoop   = 7
 )
 
@@ -102,8 +102,9 @@ func guarded(fn func()) (status string, alloc uint64) {
 	}
 	base := heapMB()
 	deadline := time.After(hangAfter)
-	tick := time.NewTicker(10 * time.Millisecond)
+	tick := time.NewTicker(20 * time.Millisecond)
 	defer tick.Stop()
+	last, growing := base, 0
 	for {
 		select {
 		case r := <-done:
@@ -112,7 +113,18 @@ func guarded(fn func()) (status string, alloc uint64) {
 			}
 			return "", r.alloc
 		case <-tick.C:
-			if h := heapMB(); h > base+hangHeapMB {
+			// one huge allocation makes the heap jump once; a loop keeps it growing tick after tick
+			h := heapMB()
+			if h > last+8 {
+				growing++
+			} else {
+				growing = 0
+			}
+			last = h
+			if h > base+hangHeapMB && growing >= 5 {
+				return "loop", (h - base) << 20
+			}
+			if h > base+8*hangHeapMB && growing >= 2 {
 				return "loop", (h - base) << 20
 			}
 		case <-deadline:
